@@ -21,7 +21,25 @@ func stub__os_WriteFile(name string, data []byte, perm fs.FileMode) error {
 	return nil
 }
 
+// vFileBroken: the checkpoint path cannot be accessed at all (a parent component is
+// a regular file, no permission, I/O error): every access fails with vErrIO.
+var vFileBroken bool
+var vErrIO = errors.New("checkpoint store: input/output error")
+
+func stub__os_Stat(name string) (fs.FileInfo, error) {
+	if vFileBroken {
+		return nil, vErrIO
+	}
+	if !vFileExists {
+		return nil, fs.ErrNotExist
+	}
+	return nil, nil
+}
+
 func stub__os_ReadFile(name string) ([]byte, error) {
+	if vFileBroken {
+		return nil, vErrIO
+	}
 	if !vFileExists {
 		return nil, fs.ErrNotExist
 	}
@@ -94,4 +112,28 @@ func H_C02_file() {
 	before := len(vTokens)
 	assert(ro.Save(map[uint16]*models.CheckpointDocument{0: vDoc("x")}, map[uint16]bool{0: true}, "b") == nil && len(vTokens) == before, "read-only mode writes nothing")
 	cover("file")
+}
+
+// H_C15_fileload: a checkpoint store that cannot be read is reported, never
+// taken for a first start (stream.checkpoint.Load stops the client on the error:
+// C15_load); an absent file is a clean first start.
+func H_C15_fileload() {
+	vFile, vFileExists, vTokens = nil, false, nil
+	vFileBroken = nondetBool("broken")
+	if nondetBool("stored-before") {
+		vFile, vFileExists = []byte("{}"), true
+	}
+	cfg := &config.Dcp{}
+	cfg.Metadata.Type = "file"
+	cfg.Metadata.Config = map[string]string{"fileName": "checkpoint.json"}
+	md := NewFSMetadata(cfg)
+	st, exist, err := md.Load([]uint16{0, 1}, "b")
+	if vFileBroken {
+		cover("unreadable")
+		assert(err != nil, "an unreadable checkpoint store is reported as an error, not as 'no checkpoint yet'")
+	} else if !vFileExists {
+		cover("first-start")
+		assert(err == nil && !exist && st != nil, "an absent file is a clean first start")
+	}
+	vFileBroken = false
 }
